@@ -65,12 +65,14 @@ pub fn read_stream<F: Read + Seek>(
     cf: &mut cfb::CompoundFile<F>,
     path: &std::path::Path,
 ) -> Value {
+    // A stream that cannot be read is reported as one run of the impossible
+    // byte -2 (type-compatible with real data, equal to none).
     match cf.open_stream(path) {
-        Err(e) => json!({"err": err_kind(&e)}),
+        Err(_) => json!([[-2, 1]]),
         Ok(mut s) => {
             let mut buf = Vec::new();
             match s.read_to_end(&mut buf) {
-                Err(e) => json!({"err": err_kind(&e)}),
+                Err(_) => json!([[-2, 1]]),
                 Ok(_) => rle::to_json(&buf),
             }
         }
@@ -98,13 +100,17 @@ pub fn dump<F: Read + Seek>(cf: &mut cfb::CompoundFile<F>, dict: &Dict, full: bo
                     Ok(it) => Value::Array(
                         it.map(|c| Value::String(dict.id_of(c.name()))).collect(),
                     ),
-                    Err(er) => json!({"err": err_kind(&er)}),
+                    Err(er) => json!([format!("err:{}", err_kind(&er))]),
                 };
                 ls.push(json!({"p": dict.path_ids(e.path()), "names": names}));
             }
             match cf.entry(e.path()) {
                 Ok(x) => ent.push(norm_len(entry_json(&x, dict))),
-                Err(er) => ent.push(json!({"err": err_kind(&er)})),
+                Err(er) => {
+                    let mut v = norm_len(entry_json(e, dict));
+                    v["n"] = json!(format!("err:{}", err_kind(&er)));
+                    ent.push(v)
+                }
             }
         }
     }
